@@ -23,7 +23,10 @@ SPEC = {
              "with the model incl. which source connection every byte of the target is written to; reattachfree: the same "
              "while the target streams (schedule-independent clauses only; second binary built with `go build -race`, a "
              "race report is a failing observation); bridgestall: the statistics backend does not answer during the final "
-             "traffic report — both ends must already be closed"),
+             "traffic report — both ends must already be closed; xnode: the target end attached on another node — source app, "
+             "real Bridge + CrossNodeListener relay, loopback TCP, real forwardToSourceNode (dedicated-connection manager or "
+             "pool) + runCrossNodeDataForwardDedicated, target app — both ends writing at intervals for several multiples "
+             "of the attach deadline, neither closing early; compared with the model and judged by holdsXnode"),
     "trusted_base": [
         "Lean 4.33 kernel; axioms propext, Classical.choice, Quot.sound only (audited per theorem on every run)",
         "extractor: CopyBufferSize, BatchUpdateThreshold; call skeletons of CopyWithControl, waitLimiterN, runBridgeLifecycle (compared by decide)",
@@ -33,7 +36,7 @@ SPEC = {
     ],
     "assumptions": [
         "closure 'within bounded time' is wall-clock: the model proves the close is issued; the harness observes it under a 15 s watchdog (partial)",
-        "quota/traffic-meter path (QuotaEnforcer) not modelled (nil in the harness); cross-node forwarding is C10",
+        "quota/traffic-meter path (QuotaEnforcer) not modelled (nil in the harness); the framed cross-node stream (FrameStream, pooled connections) is C10 — the raw two-hop relay of a cross-node tunnel is the xnode kind here",
         "a source connection replaced twice during one copy (the middle one is never read) is outside sourceLoop; re-attachment after the bridge has closed is C16's late-attach clause",
         "the statistics backend is external: closeRun stops at a stalled ManagerBase.Close; 'the server forgets the tunnel' then waits for the backend (not claimed under a stalled backend)",
     ],
